@@ -176,28 +176,45 @@ func (s *Solver) check(script string, inputs []*Term, extraValues []*Term, timeo
 	return qr
 }
 
-// parseModel parses ((|name| #x..) (|n2| true) ...)
+// parseModel parses ((name value) ...) where name is |quoted| or a plain symbol.
 func parseModel(s string, out map[string]string) {
 	i := 0
-	for i < len(s) {
-		j := strings.Index(s[i:], "(|")
-		if j < 0 {
-			break
-		}
-		i += j + 2
-		k := strings.Index(s[i:], "|")
-		if k < 0 {
-			break
-		}
-		name := s[i : i+k]
-		i += k + 1
-		// value until matching ')'
-		for i < len(s) && s[i] == ' ' {
+	n := len(s)
+	skip := func() {
+		for i < n && (s[i] == ' ' || s[i] == '\t' || s[i] == '\n') {
 			i++
 		}
+	}
+	skip()
+	if i < n && s[i] == '(' {
+		i++
+	}
+	for {
+		skip()
+		if i >= n || s[i] != '(' {
+			return
+		}
+		i++
+		skip()
+		var name string
+		if i < n && s[i] == '|' {
+			k := strings.Index(s[i+1:], "|")
+			if k < 0 {
+				return
+			}
+			name = s[i+1 : i+1+k]
+			i += k + 2
+		} else {
+			st := i
+			for i < n && s[i] != ' ' && s[i] != ')' {
+				i++
+			}
+			name = s[st:i]
+		}
+		skip()
 		depth := 0
 		st := i
-		for i < len(s) {
+		for i < n {
 			if s[i] == '(' {
 				depth++
 			} else if s[i] == ')' {
@@ -208,8 +225,8 @@ func parseModel(s string, out map[string]string) {
 			}
 			i++
 		}
-		val := strings.TrimSpace(s[st:i])
-		out[name] = normVal(val)
+		out[name] = normVal(strings.TrimSpace(s[st:i]))
+		i++
 	}
 }
 
